@@ -100,6 +100,13 @@ class EnumVal:
     def __hash__(self):
         return hash((self.cls.qualname, self.name)) if not isinstance(self.value, str) else hash(self.value)
 
+    def __lt__(self, o):
+        # (str, Enum) members order like their string values
+        return str(self.value) < str(o.value if isinstance(o, EnumVal) else o)
+
+    def __gt__(self, o):
+        return str(self.value) > str(o.value if isinstance(o, EnumVal) else o)
+
     def __str__(self):
         return self.name
 
@@ -3162,3 +3169,33 @@ def _np_ndindex(*shape):
 
 _NP_FUNCS.setdefault("ndindex", _np_ndindex)
 _NP_FUNCS.setdefault("ndenumerate", lambda a: [(pos, _xa(a)[pos]) for pos in _np_ndindex(*_xa(a).shape)])
+
+
+def _np_hypot(a, b):
+    return _NP_FUNCS["sqrt"](_xa(a) * _xa(a) + _xa(b) * _xa(b)) if isinstance(a, (XArray, list, tuple)) or isinstance(b, (XArray, list, tuple)) else _NP_FUNCS["sqrt"](exact(a) * exact(a) + exact(b) * exact(b))
+
+
+def _conj(v):
+    re_, im_ = cx_parts(v)
+    return re_ - IMAG * im_ if not (isinstance(im_, (int, Fraction)) and im_ == 0) else re_
+
+
+def _np_conj(a):
+    if isinstance(a, (XArray, list, tuple)):
+        a = _xa(a)
+        return XArray(a.shape, [_conj(v) for v in a.data])
+    return _conj(a)
+
+
+def _np_vecdot(a, b, axis=-1, **kw):
+    """np.vecdot: sum over the axis of conj(a) * b (numpy conjugates the FIRST argument)"""
+    A, B = _xa(a), _xa(b)
+    prod = XArray._binop(_np_conj(A), B, lambda x, y: x * y)
+    return prod.sum(axis=int(axis) % prod.ndim)
+
+
+_NP_FUNCS.setdefault("hypot", _np_hypot)
+_NP_FUNCS.setdefault("conj", _np_conj)
+_NP_FUNCS.setdefault("conjugate", _np_conj)
+_NP_FUNCS.setdefault("vecdot", _np_vecdot)
+_NP_FUNCS.setdefault("inner", lambda a, b: _NP_FUNCS["tensordot"](a, b, axes=([-1], [-1])) if _xa(a).ndim and _xa(b).ndim else exact(a) * exact(b))
